@@ -25,6 +25,8 @@ KDDP = os.path.join(DDP, "bin", "kddp")
 PROBE = os.path.join(BUILD, "bin", "ddpprobe")
 LOCPATH = os.path.join(BUILD, "locale")
 SCRATCH_ROOT = os.environ.get("VERIF_SCRATCH", "/var/tmp")
+# where evidence/ and replay/ are written; only overridden when a check is pointed at a scratch copy of the repository
+OUT = os.environ.get("VERIF_OUT", VERIF)
 NCPU = min(16, os.cpu_count() or 4)
 
 
@@ -365,7 +367,7 @@ class Check:
                 return False
             key = json.dumps(sig, sort_keys=True, ensure_ascii=False)
             h = hashlib.sha1(key.encode()).hexdigest()[:12]
-            d = os.path.join(VERIF, "replay", self.pid, h)
+            d = os.path.join(OUT, "replay", self.pid, h)
             if any(v[1] == d for v in self.violations):
                 return True
             os.makedirs(d, exist_ok=True)
@@ -402,8 +404,8 @@ class Check:
             "property_id": self.pid, "tier": self.tier, "seed": self.seed, "level": self.level,
             "coverage": cov, "assumptions": self.assumptions, "wall_s": round(wall, 2), "violations": len(self.violations),
         }
-        os.makedirs(os.path.join(VERIF, "evidence"), exist_ok=True)
-        with open(os.path.join(VERIF, "evidence", self.pid + ".json"), "w") as f:
+        os.makedirs(os.path.join(OUT, "evidence"), exist_ok=True)
+        with open(os.path.join(OUT, "evidence", self.pid + ".json"), "w") as f:
             json.dump(ev, f, indent=1, ensure_ascii=False)
         log("[%s] %s: evaluations=%d distinct=%d inconclusive=%d violations=%d known=%s wall=%.1fs" % (
             self.pid, self.tier, self.evaluations, len(self.distinct) + self.distinct_extra, self.inconclusive, len(self.violations), self.known_hits, wall))
